@@ -127,6 +127,10 @@ func (c *capLogger) InfoContext(ctx context.Context, msg string, args ...any) {
 		hk = kHTTP
 	} else if strings.HasPrefix(msg, "Starting HTTPS server") {
 		hk = kHTTPS
+	} else if strings.HasPrefix(msg, "Starting gRPC server") {
+		// the gRPC provider logs this line BEFORE it listens and before startWg.Done(): holding it here keeps
+		// Server.Start itself in progress (every provider launched, Start waiting at startWg.Wait())
+		hk = kGRPC
 	}
 	if hk >= 0 && c.hold != nil && c.hold[hk] != nil {
 		c.holding.Add(1)
@@ -216,6 +220,7 @@ type scenario struct {
 
 type observation struct {
 	StartOK    bool   `json:"start_returned"`
+	StartWhileHeld bool `json:"start_returned_while_goroutines_held"`
 	Reach      []bool `json:"reachable"`
 	StopOK     bool   `json:"stop_returned"`
 	StopEarly  bool   `json:"stop_returned_while_requests_blocked"`
@@ -587,10 +592,11 @@ func (g *gen) liveHeld(sc *scenario) *observation {
 	g.lives++
 	startDone := make(chan struct{})
 	go func() { srv.Start(context.Background()); close(startDone) }()
-	o.StartOK = waitDone(startDone, 15*time.Second)
-	if !o.StartOK {
-		close(rel)
-		return o
+	grpcHeld := false
+	for _, k := range sc.Held {
+		if k == kGRPC {
+			grpcHeld = true
+		}
 	}
 	dl := time.Now().Add(15 * time.Second)
 	for int(lg.holding.Load()) < len(sc.Held) && time.Now().Before(dl) {
@@ -598,6 +604,17 @@ func (g *gen) liveHeld(sc *scenario) *observation {
 	}
 	if int(lg.holding.Load()) < len(sc.Held) {
 		o.envProblem = "provider goroutines did not reach the hold point"
+	}
+	if grpcHeld {
+		// Start is expected to be still in progress (it waits for the held provider's signal): not a clause of
+		// the property, only compared with the model's prediction
+		o.StartWhileHeld = waitDone(startDone, 100*time.Millisecond)
+	} else {
+		o.StartWhileHeld = waitDone(startDone, 15*time.Second)
+		if !o.StartWhileHeld {
+			close(rel)
+			return o
+		}
 	}
 	ctx, cancel := context.WithTimeout(context.Background(), 60*time.Second)
 	defer cancel()
@@ -607,6 +624,7 @@ func (g *gen) liveHeld(sc *scenario) *observation {
 	go func() { stopErr = srv.Stop(ctx); close(stopDone) }()
 	o.StopEarly = waitDone(stopDone, 200*time.Millisecond) // must still be waiting for the held goroutines
 	close(rel)
+	o.StartOK = waitDone(startDone, 15*time.Second)
 	o.StopOK = waitDone(stopDone, 30*time.Second)
 	o.StopMs = float64(time.Since(t1).Microseconds()) / 1000
 	if o.StopOK {
@@ -615,15 +633,35 @@ func (g *gen) liveHeld(sc *scenario) *observation {
 		go func() { wg.Wait(); close(wgDone) }()
 		o.WgOK = waitDone(wgDone, 5*time.Second)
 	}
+	allDown := true
 	for i := range sc.Kinds {
 		o.Down = append(o.Down, refuses(ports[i]))
 		o.Rebind = append(o.Rebind, rebindable(ports[i]))
+		allDown = allDown && o.Down[i]
 	}
 	lg.mu.Lock()
 	o.Stopped = append([]int{}, lg.stopped...)
 	lg.mu.Unlock()
 	o.RestartOK = true
+	if !allDown && o.StartOK && o.StopOK {
+		// something is still listening although Stop returned: do not leave it behind (best effort, not observed)
+		c2, cancel2 := context.WithTimeout(context.Background(), 2*time.Second)
+		d2 := make(chan struct{})
+		go func() { srv.Stop(c2); close(d2) }()
+		waitDone(d2, 3*time.Second)
+		cancel2()
+	}
 	return o
+}
+
+func heldTags(sc *scenario) []string {
+	t := []string{sc.Group, "held-before-serve-loop"}
+	for _, k := range sc.Held {
+		if k == kGRPC {
+			t = append(t, "stop-while-start-in-progress")
+		}
+	}
+	return t
 }
 
 // the property's clauses, evaluated here ONLY to decide whether to re-run (the verdict is Coq's)
@@ -716,10 +754,10 @@ func (g *gen) run(sc *scenario) {
 	}
 	if len(sc.Held) > 0 {
 		g.w.Add(cw.Case{
-			Coq: fmt.Sprintf("CHeld %s %s %s %s %s %s %s %s %s %s", cw.ZL(sc.Kinds), cw.ZL(sc.Held), cw.B(o.StartOK), cw.B(o.StopEarly),
+			Coq: fmt.Sprintf("CHeld %s %s %s %s %s %s %s %s %s %s %s", cw.ZL(sc.Kinds), cw.ZL(sc.Held), cw.B(o.StartWhileHeld), cw.B(o.StartOK), cw.B(o.StopEarly),
 				cw.B(o.StopOK), cw.B(o.StopErr), cw.B(o.WgOK), bl(o.Down), bl(o.Rebind), cw.ZL(o.Stopped)),
 			Desc: map[string]any{"scenario": sc, "observed": o},
-			Tags: []string{sc.Group, "held-before-serve-loop"},
+			Tags: heldTags(sc),
 			Key:  fmt.Sprintf("held|%v|%v", sc.Kinds, sc.Held)})
 		return
 	}
@@ -846,12 +884,7 @@ func main() {
 	}
 	// --- A3: scripted "Stop before a provider goroutine has entered its serve loop": HTTP / HTTPS goroutines held ---
 	for _, sub := range subsets() {
-		var cand []int
-		for _, k := range sub {
-			if k != kGRPC {
-				cand = append(cand, k)
-			}
-		}
+		cand := append([]int{}, sub...) // HTTP/HTTPS: held after their start signal; gRPC: held before it (Start in progress)
 		for mask := 1; mask < 1<<len(cand); mask++ {
 			held := []int{}
 			for i, k := range cand {
